@@ -3,7 +3,8 @@
      managers  : VList of (VNone | VInt timeout)
      contexts  : VList of VTup [VInt manager_index; VBool pool]
      pipelines : VList of VTup [VInt ctx; VList (VList ints) partitions; VList of VTup [VInt tag; VInt fn]]
-                 tag 0 map, 1 filter, 2 flatMap, 3 persist, 4 mapPartitions[WithIndex] with a generator function
+                 tag 0 map, 1 filter, 2 flatMap, 3 persist, 4 mapPartitions[WithIndex] with a generator function,
+                 5 index-dependent element function (fn<3: mapPartitionsWithIndex, fn>=3: task context's partition id)
      history   : VList of VTup [VInt 0; k; j; kind; n] (kind 0 collect, 1 count, 2 take n, 3 first)
                           | VTup [VInt 1; k; j] unpersist | VTup [VInt 2; dt] advance | VTup [VInt 3; mi] gc
    result = VTup [ids per pipeline; VList, per action, of VTup [result; user calls; managers] (ids relative to the counter at case start). *)
@@ -44,6 +45,14 @@ Definition lib_part (n : Z) : option (list Z -> list Z) :=
   | _ => Some pair_sums                                                                             (* zip(it, it) *)
   end.
 
+(* functions of (partition index, position in the partition, element) *)
+Definition lib_idx (n : Z) : option (Z -> Z -> Z -> Z) :=
+  match n mod 3 with
+  | 0 => Some (fun i _ x => x + 10 * i)
+  | 1 => Some (fun i e _ => e * 7 + i)            (* zipWithUniqueId-like: e * n + partition id *)
+  | _ => Some (fun i e x => x * (i + 1) + e)
+  end.
+
 Definition dec_stage (v : val) : option (stage Z) :=
   match v with
   | VTup [VInt 0; VInt f] => option_map SMap (lib_map f)
@@ -51,6 +60,7 @@ Definition dec_stage (v : val) : option (stage Z) :=
   | VTup [VInt 2; VInt g] => option_map SFlatMap (lib_flat g)
   | VTup [VInt 3; VInt _] => Some SPersist
   | VTup [VInt 4; VInt h] => option_map SPart (lib_part h)
+  | VTup [VInt 5; VInt f] => option_map SIdx (lib_idx f)
   | _ => None
   end.
 
